@@ -20,28 +20,39 @@ Import ListNotations.
 Local Arguments expand_node : simpl never.
 Local Arguments rx_node : simpl never.
 
-(* the literal text the root contributes, decided by the first node *)
+(* the literal text the root contributes, decided by the first segment
+   (Pattern._first_segment): "" for an empty pattern and for a leading wildcard,
+   else the text of the first node *)
 Definition root_part (r t : str) : str := if starts_with [c_slash] t then [] else r.
 
+Definition first_text (e : env) (ns : list node) : option str :=
+  match ns with
+  | [] => Some []
+  | NStar _ :: _ | NStarstar _ _ :: _ => Some []
+  | n0 :: _ => fixed_text e n0
+  end.
+
 Definition unroot_pat (e : env) (p : pattern) : pattern :=
-  match p_root p, p_nodes p with
-  | Some r, n0 :: _ =>
-      match fixed_text e n0 with
+  match p_root p with
+  | Some r =>
+      match first_text e (p_nodes p) with
       | Some t => mkpat (NLit (root_part r t) :: p_nodes p) None (S (p_prefix p))
       | None => p
       end
-  | _, _ => p
+  | None => p
   end.
 
 Definition unroot (M : matcher) : matcher := mkm (unroot_pat (m_env M) (m_pat M)) (m_env M).
 
-(* a matcher whose root test is decided by a fixed first node *)
+(* a matcher whose root test is decided: the first node is a wildcard, or has a fixed text
+   (a literal, a variable bound to a wildcard-free value), or the pattern is empty.  The
+   prefix length is at least 1 unless that first text is empty, as the parser makes it. *)
 Definition rooted_ok (M : matcher) : Prop :=
   NoDup (map fst (m_env M)) /\
   match p_root (m_pat M) with
   | None => True
-  | Some _ => 1 <= p_prefix (m_pat M) /\
-              exists n0 ns t, p_nodes (m_pat M) = n0 :: ns /\ fixed_text (m_env M) n0 = Some t
+  | Some _ => exists t, first_text (m_env M) (p_nodes (m_pat M)) = Some t /\
+                        (1 <= p_prefix (m_pat M) \/ t = [])
   end.
 
 Lemma fixed_expand : forall e n t f rm, fixed_text e n = Some t ->
@@ -61,6 +72,26 @@ Lemma fixed_sub_env : forall d e n t, NoDup (map fst d) -> NoDup (map fst e) ->
 Proof.
   intros d e n t Hd He H. destruct n as [s|name rep|rep|k|k suffix]; simpl in *; auto.
   rewrite lookup_sub_env by auto. destruct (lookup name e); [auto|discriminate].
+Qed.
+
+Lemma first_text_sub_env : forall d e ns t, NoDup (map fst d) -> NoDup (map fst e) ->
+  first_text e ns = Some t -> first_text (sub_env d e) ns = Some t.
+Proof.
+  intros d e ns t Hd He H. destruct ns as [|n0 ns]; [exact H|].
+  destruct n0 as [s|name rep|rep|k|k suffix]; try exact H.
+  apply (fixed_sub_env d e (NVar name rep) t Hd He H).
+Qed.
+
+Lemma first_segment_text : forall e ns t f rm, first_text e ns = Some t ->
+  first_segment (expand_node (S (S f)) e rm) ns = Ok t.
+Proof.
+  intros e ns t f rm H. destruct ns as [|n0 ns]; [inversion H; reflexivity|].
+  destruct n0 as [s|name rep|rep|k|k suffix].
+  - unfold first_segment. rewrite (fixed_expand e (NLit s) t f rm H). reflexivity.
+  - unfold first_segment. rewrite (fixed_expand e (NVar name rep) t f rm H). reflexivity.
+  - discriminate.
+  - inversion H. reflexivity.
+  - inversion H. reflexivity.
 Qed.
 
 Lemma expand_fuel_SS : forall e, exists f, expand_fuel e = S (S f).
@@ -90,31 +121,31 @@ Proof.
 Qed.
 
 (* expansion: root ++ body = the literal node in front *)
-Lemma expand_unroot : forall e' r n0 ns k k' t rm,
-  fixed_text e' n0 = Some t ->
-  expand_pattern e' rm (mkpat (n0 :: ns) (Some r) k) =
-  expand_pattern e' rm (mkpat (NLit (root_part r t) :: n0 :: ns) None k').
+Lemma expand_unroot : forall e' r ns k k' t rm,
+  first_text e' ns = Some t ->
+  expand_pattern e' rm (mkpat ns (Some r) k) =
+  expand_pattern e' rm (mkpat (NLit (root_part r t) :: ns) None k').
 Proof.
-  intros e' r n0 ns k k' t rm Hf. unfold expand_pattern, expand_with. simpl p_root. simpl p_nodes.
+  intros e' r ns k k' t rm Hf. unfold expand_pattern, expand_with. simpl p_root. simpl p_nodes.
   destruct (expand_fuel_SS e') as [f Hfu]. rewrite Hfu.
-  rewrite (fixed_expand e' n0 t f false Hf). rewrite expand_children_lit_cons.
-  remember (expand_children (expand_node (S (S f)) e' true) rm (n0 :: ns)) as EC.
-  unfold root_part. cbn [bind item_str]. remember (starts_with [c_slash] t) as ab.
+  rewrite (first_segment_text e' ns t f false Hf). rewrite expand_children_lit_cons.
+  remember (expand_children (expand_node (S (S f)) e' true) rm ns) as EC.
+  unfold root_part. cbn [bind]. remember (starts_with [c_slash] t) as ab.
   destruct ab; (destruct EC as [items|tg]; simpl; [|reflexivity]);
     destruct (join_items items); reflexivity.
 Qed.
 
 (* the regular expression: escaped root ++ body = the literal node in front *)
-Lemma regex_unroot : forall e r n0 ns k k' t,
-  fixed_text e n0 = Some t ->
-  regex_of_pattern e (mkpat (n0 :: ns) (Some r) k) =
-  regex_of_pattern e (mkpat (NLit (root_part r t) :: n0 :: ns) None k').
+Lemma regex_unroot : forall e r ns k k' t,
+  first_text e ns = Some t ->
+  regex_of_pattern e (mkpat ns (Some r) k) =
+  regex_of_pattern e (mkpat (NLit (root_part r t) :: ns) None k').
 Proof.
-  intros e r n0 ns k k' t Hf. unfold regex_of_pattern, rx_pattern_with. simpl p_root. simpl p_nodes.
+  intros e r ns k k' t Hf. unfold regex_of_pattern, rx_pattern_with. simpl p_root. simpl p_nodes.
   destruct (expand_fuel_SS e) as [f Hfu]. rewrite Hfu.
-  rewrite (fixed_expand e n0 t f false Hf). unfold rx_fuel. rewrite rx_children_lit_cons.
-  remember (rx_children (rx_node (S (length e)) e) (n0 :: ns) (mkcst 1 [] false)) as RC.
-  unfold root_part. cbn [bind item_str]. remember (starts_with [c_slash] t) as ab.
+  rewrite (first_segment_text e ns t f false Hf). unfold rx_fuel. rewrite rx_children_lit_cons.
+  remember (rx_children (rx_node (S (length e)) e) ns (mkcst 1 [] false)) as RC.
+  unfold root_part. cbn [bind]. remember (starts_with [c_slash] t) as ab.
   destruct ab; destruct RC as [[b c2]|tg]; reflexivity.
 Qed.
 
@@ -125,33 +156,40 @@ Proof. intros [p e] H. unfold unroot, unroot_pat. simpl in *. rewrite H. reflexi
 Lemma match_unroot : forall M path, rooted_ok M -> match_ M path = match_ (unroot M) path.
 Proof.
   intros [p e] path [Hn Hr]. simpl in *. destruct (p_root p) as [r|] eqn:Er.
-  - destruct Hr as [Hk [n0 [ns [t [Hns Hf]]]]]. unfold match_, unroot, unroot_pat. simpl.
-    rewrite Er, Hns, Hf. destruct p as [nodes root k]. simpl in *. subst.
-    rewrite (regex_unroot e r n0 ns k (S k) t Hf). reflexivity.
+  - destruct Hr as [t [Hf Hk]]. unfold match_, unroot, unroot_pat. simpl.
+    rewrite Er, Hf. destruct p as [nodes root k]. simpl in *. subst.
+    rewrite (regex_unroot e r nodes k (S k) t Hf). reflexivity.
   - unfold unroot, unroot_pat. simpl. rewrite Er. reflexivity.
 Qed.
 
 Lemma expand_unroot_env : forall M e' rm, rooted_ok M ->
-  (forall n0 ns t, p_nodes (m_pat M) = n0 :: ns -> fixed_text (m_env M) n0 = Some t ->
-                   fixed_text e' n0 = Some t) ->
+  (forall t, first_text (m_env M) (p_nodes (m_pat M)) = Some t ->
+             first_text e' (p_nodes (m_pat M)) = Some t) ->
   expand_pattern e' rm (m_pat M) = expand_pattern e' rm (m_pat (unroot M)).
 Proof.
   intros [p e] e' rm [Hn Hr] He. simpl in *. destruct (p_root p) as [r|] eqn:Er.
-  - destruct Hr as [Hk [n0 [ns [t [Hns Hf]]]]]. unfold unroot, unroot_pat. simpl.
-    rewrite Er, Hns, Hf. destruct p as [nodes root k]. simpl in *. subst.
-    apply expand_unroot. eapply He; eauto.
+  - destruct Hr as [t [Hf Hk]]. unfold unroot, unroot_pat. simpl.
+    rewrite Er, Hf. destruct p as [nodes root k]. simpl in *. subst.
+    apply expand_unroot. apply He. exact Hf.
   - unfold unroot, unroot_pat. simpl. rewrite Er. reflexivity.
 Qed.
 
 Lemma str_unroot : forall M, rooted_ok M -> str_of M = str_of (unroot M).
 Proof. intros M H. unfold str_of. apply expand_unroot_env; auto. Qed.
 
+Lemma first_text_firstn : forall e ns t k, first_text e ns = Some t -> (1 <= k \/ t = []) ->
+  first_text e (firstn k ns) = Some t.
+Proof.
+  intros e ns t k H [Hk|Ht].
+  - destruct k as [|k]; [lia|]. destruct ns as [|n0 ns]; exact H.
+  - subst t. destruct k as [|k]; [reflexivity|]. destruct ns as [|n0 ns]; exact H.
+Qed.
+
 Lemma prefix_unroot : forall M, rooted_ok M -> prefix M = prefix (unroot M).
 Proof.
   intros [p e] [Hn Hr]. simpl in *. destruct (p_root p) as [r|] eqn:Er.
-  - destruct Hr as [Hk [n0 [ns [t [Hns Hf]]]]]. unfold prefix, unroot, unroot_pat. simpl.
-    rewrite Er, Hns, Hf. simpl. destruct (p_prefix p) as [|k]; [lia|]. simpl.
-    apply expand_unroot. exact Hf.
+  - destruct Hr as [t [Hf Hk]]. unfold prefix, unroot, unroot_pat. simpl.
+    rewrite Er, Hf. simpl. apply expand_unroot. apply first_text_firstn; auto.
   - unfold unroot, unroot_pat. simpl. rewrite Er. reflexivity.
 Qed.
 
@@ -165,7 +203,7 @@ Proof.
   destruct (match_ (unroot P) path) as [[d|]|] eqn:Em; try reflexivity. simpl.
   destruct (match_decompose _ _ _ HS Em) as [_ [_ [_ [Hd _]]]].
   rewrite (expand_unroot_env Q (sub_env d (m_env Q)) false HQ); [reflexivity|].
-  intros n0 ns t _ Hf. apply fixed_sub_env; auto. destruct HQ; auto.
+  intros t Hf. apply first_text_sub_env; auto. destruct HQ; auto.
 Qed.
 
 (* ---- the unrooted reading stays in the grammar -------------------------------------------- *)
@@ -175,7 +213,7 @@ Lemma unroot_nodes : forall M, rooted_ok M ->
 Proof.
   intros [p e] [Hn Hr]. simpl in *. unfold unroot, unroot_pat. simpl.
   destruct (p_root p) as [r|] eqn:Er.
-  - destruct Hr as [Hk [n0 [ns [t [Hns Hf]]]]]. rewrite Hns, Hf. simpl.
+  - destruct Hr as [t [Hf Hk]]. rewrite Hf. simpl.
     exists [NLit (root_part r t)]. split; [reflexivity|]. split; [|reflexivity].
     constructor; [eexists; reflexivity|constructor].
   - exists []. simpl. rewrite Er. auto.
@@ -209,7 +247,7 @@ Proof.
   split; [|eapply match_kinds_ok; eauto].
   exists p0. split; auto.
   rewrite (expand_unroot_env M (sub_env d (m_env M)) false HR); [exact H2|].
-  intros n0 ns t _ Hf. apply fixed_sub_env; auto. destruct HR; auto.
+  intros t Hf. apply first_text_sub_env; auto. destruct HR; auto.
 Qed.
 
 Theorem sub_self_rooted : forall M path d, simple_rooted M -> match_ M path = Ok (Some d) ->
@@ -221,15 +259,14 @@ Qed.
 
 (* the root is matched literally: every matched path starts with the text the root
    contributes, character by character, whatever characters it contains *)
-Theorem rooted_match_starts_with_root : forall M path d r n0 ns t, simple_rooted M ->
-  p_root (m_pat M) = Some r -> p_nodes (m_pat M) = n0 :: ns ->
-  fixed_text (m_env M) n0 = Some t ->
+Theorem rooted_match_starts_with_root : forall M path d r t, simple_rooted M ->
+  p_root (m_pat M) = Some r -> first_text (m_env M) (p_nodes (m_pat M)) = Some t ->
   match_ M path = Ok (Some d) -> starts_with (root_part r t) path = true.
 Proof.
-  intros [p e] path d r n0 ns t [HR HS] Hr Hns Hf Hm. simpl in *.
+  intros [p e] path d r t [HR HS] Hr Hf Hm. simpl in *.
   rewrite (match_unroot _ path HR) in Hm.
   destruct (match_decompose _ _ _ HS Hm) as [pieces [H1 [H2 _]]].
-  unfold unroot, unroot_pat in H2. simpl in H2. rewrite Hr, Hns, Hf in H2. simpl in H2.
+  unfold unroot, unroot_pat in H2. simpl in H2. rewrite Hr, Hf in H2. simpl in H2.
   inversion H2 as [|? piece ? ps Hp HF]; subst. simpl in Hp. subst piece.
   destruct H1 as [H1|H1]; rewrite H1; simpl; rewrite <- ?app_assoc; apply starts_with_app.
 Qed.
